@@ -152,6 +152,8 @@ def k_sparse_cp(c, rng, q, pat):
     n = c.sparse_connectedpixels(v, i, j, float(q["th"]), lab)
     lab2 = buf(len(i), np.int32, pat)
     Z = buf((ns + 2) * (nf + 2), np.int32, pat)
+    if pat:
+        Z[:] = 2          # a work array recycled from the frame before: small positive labels everywhere
     n2 = c.sparse_connectedpixels_splat(v, i, j, float(q["th"]), lab2, Z, ns, nf)
     return dict(n=n, labels=lab, n2=n2, labels2=np.where(~(v <= q["th"]), lab2, 0), sorted=c.sparse_is_sorted(i, j))
 
